@@ -1712,7 +1712,7 @@ class Dict(Opcode):
                 f"Number of keys ({len(keys)}) and values ({len(values)}) for DICT do not match"
             )
 
-        interpreter.stack.append(ast.Dict(keys=reversed(keys), values=reversed(values)))
+        interpreter.stack.append(ast.Dict(keys=keys[::-1], values=values[::-1]))
 
 
 if sys.version_info < (3, 9):
